@@ -83,7 +83,7 @@ def rule_a64(ctx, R):
         lo, reach = P.liveness_after(P.nxt(i), gen_live, A64_CALLEE_SAVED, call_uses)
         hi, _ = P.liveness_after(P.nxt(i), A64_ALL, A64_CALLEE_SAVED | {'x0', 'x1', 'v0'}, call_uses)
         # a register the callee reads as an argument and hands back changed is its result (the AES state of the software rounds), not a clobber
-        results = set(changed) & call_uses(i)
+        results = (set(changed) & call_uses(i)) - gen_live
         clob = (set(changed) - results) | {'x30'}
         bad = sorted(clob & lo)
         maybe = sorted((clob & hi) - lo)
@@ -152,3 +152,182 @@ def rule_a64_rcplit(ctx, R):
             R.violation(inst, lit[2], expected='%s keeps its value through the static text of the loop' % reg, found='changed in the piece that starts at %s' % P.name_at(loop_defs[reg]))
         else:
             R.ok(inst, lit[2])
+
+
+# ---------------------------------------------------------------------------------------------------------------------------
+# [RT-CONST]  a register that the program prologue loads from a table entry holds that entry for the whole loop
+RT_PROGRAM = {
+    'a64': dict(obj='a64', isa='a64', src='src/jit_compiler_a64_static.S', entry='randomx_program_aarch64', loop='randomx_program_aarch64_main_loop', end='randomx_init_dataset_aarch64', config='K2'),
+    'rv64': dict(obj='rv64', isa='rv', src='src/jit_compiler_rv64_static.S', entry='randomx_riscv64_prologue', loop='randomx_riscv64_loop_begin', end='randomx_riscv64_epilogue', config='K3'),
+    'rvv': dict(obj='rvv', isa='rv', src='src/jit_compiler_rv64_vector_static.S', entry='randomx_riscv64_vector_program_begin', loop='randomx_riscv64_vector_program_main_loop',
+                end='randomx_riscv64_vector_program_end', config='K3'),
+}
+
+
+def _pieces(P, lo, hi):
+    callees = {i.target for i in P.ins.values() if i.kind == 'call'}
+    return sorted({a for a in P.sym_at if lo <= a < hi and a in P.ins and P.ins[a].kind != 'data' and a not in callees})
+
+
+def rule_const(ctx, R, arch):
+    cfg = RT_PROGRAM[arch]
+    rid = {'a64': 'A64-RT-CONST', 'rv64': 'RV-RT-CONST', 'rvv': 'RVV-RT-CONST'}[arch]
+    R.rule(rid, 'a register that the hand-written program prologue loads from an entry of a constant table (masks, literals) and that a piece of the loop loads again is loaded from the same entry, and a register '
+           'spilled around a call is reloaded from the slot it was spilled to: every labelled piece of the static loop text is followed instruction by instruction (frame slots, table addresses) and each register it '
+           'leaves with a table value is compared with the value the prologue gave it', min_instances={'a64': 2, 'rv64': 2, 'rvv': 6}[arch])
+    o = ctx.obj(cfg['obj'])
+    P = rtasm.Prog(o, cfg['isa'])
+    R.saw(unit=cfg['src'], config=cfg['config'])
+    entry, loop, end = P.sym(cfg['entry']), P.sym(cfg['loop']), P.sym(cfg['end'])
+    f0 = rtasm.Frame(P)
+    at, why = f0.run(entry, stop={loop})
+    if why != 'stop':
+        raise AnalysisBroken('%s: the prologue that starts at %s does not run into %s in straight-line text (%s at %s)' % (rid, cfg['entry'], cfg['loop'], why, P.name_at(at)))
+    base = {r: v for r, v in f0.reg.items() if v[0] == 'mem'}
+    if not base:
+        raise AnalysisBroken('%s: the prologue loads no register from a table' % rid)
+    for r, v in sorted(base.items()):
+        R.ok('prologue: %s = [%s]' % (r, P.name_at(v[1])), '%s:%s' % (cfg['src'], cfg['entry']))
+    # registers that hold a table address on entry to the loop and that no piece of the loop changes
+    inv = {r: v for r, v in f0.reg.items() if v[0] == 'addr'}
+    while True:
+        drop = set()
+        for a0 in _pieces(P, loop, end):
+            f = rtasm.Frame(P)
+            f.reg.update(inv)
+            f.run(a0, stop={loop, end})
+            drop |= {r for r in inv if f.get(r) != inv[r]}
+        if not drop:
+            break
+        for r in drop:
+            del inv[r]
+    n = 0
+    starts = _pieces(P, loop, end)
+    for a0 in starts:
+        f = rtasm.Frame(P)
+        f.reg.update(inv)
+        # up to the next label the generator can address: a constant has its value at every such point
+        f.run(a0, stop={loop, end} | set(starts))
+        for r in sorted(f.written):
+            v = f.get(r)
+            b = base.get(r)
+            if v[0] == 'mem' and b is not None:
+                n += 1
+                inst = '%s reloaded in the piece at %s' % (r, P.name_at(a0))
+                if v != b:
+                    R.violation(inst, '%s:%s' % (cfg['src'], P.name_at(a0)), expected='[%s], the entry the prologue loads %s from' % (P.name_at(b[1]), r), found='[%s]' % P.name_at(v[1]))
+                else:
+                    R.ok(inst, '%s:%s' % (cfg['src'], P.name_at(a0)))
+
+
+# ---------------------------------------------------------------------------------------------------------------------------
+# [RV-RT-PRESERVE]  the same contract for the two RISC-V runtimes
+RV_ALL = {'x%d' % i for i in range(1, 32)} | {'f%d' % i for i in range(32)} | {'v%d' % i for i in range(32)}
+# RISC-V psABI: what a C caller expects to find unchanged
+RV_CALLEE_SAVED = {'x2', 'x8', 'x9'} | {'x%d' % i for i in range(18, 28)} | {'f8', 'f9'} | {'f%d' % i for i in range(18, 28)}
+
+
+def _rv_vm_registers(ctx, arch):
+    from domains import KB, KBEval
+    if arch == 'rvv':
+        return {'x%d' % i for i in range(20, 28)}
+    F, hs = jit.handlers(ctx, 'rv64')
+    regR = [f for f in F.in_file('jit_compiler_rv64.cpp') if f['name'] == 'regR']
+    if len(regR) != 1:
+        raise AnalysisBroken('RV-RT-PRESERVE: regR not found')
+    out = set()
+    for i in range(8):
+        ev = KBEval(F, {regR[0]['params'][0]['id']: KB.const(32, i)})
+        rets = []
+        ev._exec(regR[0]['body'], rets)
+        v = rets[0].value() if rets else None
+        if v is None:
+            raise AnalysisBroken('RV-RT-PRESERVE: regR(%d) is not a constant' % i)
+        out.add('x%d' % v)
+    return out
+
+
+def rule_rv(ctx, R, arch):
+    cfg = RT_PROGRAM[arch]
+    rid = {'rv64': 'RV-RT-PRESERVE', 'rvv': 'RVV-RT-PRESERVE'}[arch]
+    R.rule(rid, 'every routine the hand-written RISC-V runtime calls while a program is running leaves unchanged every register that is read afterwards before being written (callee text followed with its frame slots; '
+           'liveness over the static text; generated code reads the eight VM integer registers; a return to C++ needs the psABI callee-saved registers); registers that only generated code could read are not decided',
+           min_instances={'rv64': 18, 'rvv': 1}[arch])
+    o = ctx.obj(cfg['obj'])
+    P = rtasm.Prog(o, 'rv')
+    R.saw(unit=cfg['src'], config=cfg['config'])
+    gen_live = _rv_vm_registers(ctx, arch)
+    uu_memo = {}
+
+    def call_uses(i):
+        if i.target not in uu_memo:
+            uu_memo[i.target] = rtasm.upward_uses(P, i.target) if i.target in P.ins else set(RV_ALL)
+        return uu_memo[i.target]
+    f0 = rtasm.Frame(P)
+    loop_, end_ = P.sym(cfg['loop']), P.sym(cfg['end'])
+    f0.run(P.sym(cfg['entry']), stop={loop_})
+    # constants the prologue loads from a table and that no piece of the loop loads again have to survive every call as well
+    reloaded = set()
+    for a0 in _pieces(P, loop_, end_):
+        fp = rtasm.Frame(P)
+        fp.reg.update({r: v for r, v in f0.reg.items() if v[0] == 'addr'})
+        fp.run(a0, stop={loop_, end_})
+        reloaded |= {r for r in fp.written if fp.get(r)[0] == 'mem'}
+    state = set(gen_live) | {r for r, v in f0.reg.items() if v[0] == 'addr'} | {r for r, v in f0.reg.items() if v[0] == 'mem' and r not in reloaded}
+    link = {}
+    if arch == 'rvv':
+        # the light-mode dataset read calls through a pointer that the generator sets to the dataset-item routine of the same file
+        link = {'randomx_riscv64_vector_program_main_loop_mx_xor_light_mode': 'randomx_riscv64_vector_sshash_dataset_init'}
+    sites = [i for a, i in sorted(P.ins.items()) if i.kind in ('call', 'icall')]
+    undecided = []
+    for i in sites:
+        nm = P.name_at(i.addr)
+        target, tname = i.target, i.tsym
+        if i.kind == 'icall':
+            piece = nm.split('+')[0]
+            if piece not in link:
+                raise AnalysisBroken('%s: indirect call at %s has no known callee' % (rid, nm))
+            tname = link[piece]
+            target = P.sym(tname)
+        if target not in P.ins:
+            raise AnalysisBroken('%s: call at %s has no target in the runtime text' % (rid, nm))
+        f = rtasm.Frame(P)
+        end, why = f.run(target)
+        hops = 0
+        while why == 'leave' and hops < 4:
+            # a gap the generator fills with code: go on at the next labelled instruction (what the inserted code writes is not known here, so the
+            # set of changed registers is a lower bound - enough for a violation, never the reason for one)
+            nxt = [a for a in P.order if a > end and P.ins[a].kind != 'data' and a in P.sym_at]
+            if not nxt or any(P.ins[a].kind != 'data' for a in P.order if end <= a < nxt[0]):
+                break
+            hops += 1
+            end, why = f.run(nxt[0])
+        inst = 'call of %s at %s' % (tname, nm)
+        where = '%s:%s' % (cfg['src'], nm)
+        if why != 'ret':
+            if f.slots:
+                R.note('%s: %s runs into generated code with registers spilled; not decided' % (rid, inst))
+                R.ok(inst + ' (callee continues in generated code: not decided)', where)
+                continue
+        changed = sorted((r for r in f.written if f.get(r) != ('init', r) and r != 'x2'), key=lambda r: (r[0], int(r[1:])))
+        sp_ok = f.get('x2') == ('sp', 0) or why != 'ret'
+        cu = rtasm.upward_uses(P, target)
+        lo, reach = P.liveness_after(P.nxt(i), gen_live, RV_CALLEE_SAVED, call_uses)
+        hi, _ = P.liveness_after(P.nxt(i), RV_ALL, RV_CALLEE_SAVED | {'x10', 'x11', 'f10'}, call_uses)
+        results = (set(changed) & cu) - state
+        clob = (set(changed) - results) | set(i.defs)
+        # the superscalar routine hands its eight results back in registers it does not read, so a changed register that the caller reads is not by itself
+        # a fault here: only the registers that carry state of the program across the call are decided (VM registers, table pointers set up by the prologue)
+        bad = sorted(clob & lo & state)
+        maybe = sorted(((clob & hi) - lo) & state)
+        R.saw(fn=tname)
+        if not sp_ok:
+            R.violation(inst, where, expected='stack pointer restored', found=f.get('x2'))
+        elif bad:
+            R.violation(inst, where, expected='registers read after the call keep their value', found='%s changed by %s and read afterwards (changed: %s)' % (', '.join(bad), tname, ', '.join(changed) or 'none'))
+        else:
+            R.ok(inst, where)
+            if maybe:
+                undecided.append('%s: %s' % (inst, ', '.join(maybe)))
+    if undecided:
+        R.note('%s does not decide registers that only generated code could read after the call: %s' % (rid, ' | '.join(sorted(set(undecided))[:4])))
